@@ -99,6 +99,23 @@ def nonzero(db, fn, op, bb, depth=0):
     return None
 
 
+def felt_nonzero_param(db, fn, tr, depth=0):
+    """tr is a parameter of fn and every caller in the workspace passes a power of two / a non-zero constant (two levels)"""
+    if not (isinstance(tr, tuple) and tr[0] == 'arg') or depth > 1 or fn.kind == 'closure':
+        return None
+    k = tr[1] - 1
+    cs = callers_of(db, fn.path)
+    if not cs:
+        return None
+    for cf, bi, t in cs:
+        if len(t.get('args', [])) <= k:
+            return None
+        a = exprtree.Trees(db, cf).operand(t['args'][k])
+        if not (is_pow2(a) or const_nonzero(db, a) or felt_nonzero_param(db, cf, a, depth + 1)):
+            return None
+    return f'parameter {k + 1}: every caller ({len(cs)}) passes a power of two / non-zero constant'
+
+
 def auto_discharge(db, fn, site, T, fl, dom, guards):
     t = site['term']
     d = site['detail']
@@ -138,6 +155,9 @@ def auto_discharge(db, fn, site, T, fl, dom, guards):
             if 'NonZeroFelt' in full or 'FeltIsZeroError' in full:
                 if is_pow2(tr) or const_nonzero(db, tr):
                     return 'NonZeroFelt of a power of two / non-zero constant'
+                why = felt_nonzero_param(db, fn, tr)
+                if why:
+                    return why
             # unwrap dominated by is_some / is_ok on the same value
             pl = op_place(args[0]) if args else None
             if pl is not None:
